@@ -5,6 +5,7 @@ package main
 import (
 	"fmt"
 	"go/types"
+	"strings"
 
 	"golang.org/x/tools/go/ssa"
 )
@@ -59,19 +60,61 @@ func (st *State) getHeap(P *Prog, comp, sort string) Term {
 	if t, ok := st.heap[comp]; ok {
 		if t.Sort == "" { // lazily sorted havoc constant
 			t.Sort = sort
-			st.fx.declare(t.S, sort)
+			if _, seen := st.fx.declared[t.S]; !seen {
+				st.fx.declare(t.S, sort)
+				st.fx.compWF(t, comp, st.fx.havocNext[t.S])
+			}
 			st.heap[comp] = t
 		}
 		return t
 	}
 	name := st.base + "_" + sanitize(comp)
 	if st.fx != nil {
-		st.fx.declare(name, sort)
+		if _, seen := st.fx.declared[name]; !seen {
+			st.fx.declare(name, sort)
+			nx, ok := st.fx.havocNext[st.base]
+			if !ok {
+				nx = Term{"next0", "Int"}
+			}
+			st.fx.compWF(Term{name, sort}, comp, nx)
+		}
 		st.fx.compSort[comp] = sort
 	} else {
 		return P.heapInit(comp, sort)
 	}
 	return Term{name, sort}
+}
+
+// compTypes records the Go type stored in each heap component (field, element or pointee type).
+var compTypes = map[string]types.Type{}
+
+// compWF: heap closedness for a freshly introduced component constant: every reference, slice and
+// interface value stored in it denotes memory allocated before the frontier nx.
+func (fx *FnCtx) compWF(h Term, comp string, nx Term) {
+	t, ok := compTypes[comp]
+	if !ok || nx.S == "" {
+		return
+	}
+	tmp := &State{fx: fx, next: nx}
+	if strings.HasPrefix(comp, "E$") {
+		es := arrayElemSort(arrayElemSort(h.Sort))
+		v := Term{"(select (select " + h.S + " wa) wi)", es}
+		body := fx.typeAssume(v, t, tmp)
+		if body.S == "true" {
+			return
+		}
+		fx.items = append(fx.items, Item{kind: itAssume, block: -1, t: Term{fmt.Sprintf("(forall ((wa Int) (wi Int)) (! %s :pattern (%s)))", body.S, v.S), "Bool"}})
+		return
+	}
+	if strings.HasPrefix(comp, "F$") || strings.HasPrefix(comp, "P$") {
+		es := arrayElemSort(h.Sort)
+		v := Term{"(select " + h.S + " wr)", es}
+		body := fx.typeAssume(v, t, tmp)
+		if body.S == "true" {
+			return
+		}
+		fx.items = append(fx.items, Item{kind: itAssume, block: -1, t: Term{fmt.Sprintf("(forall ((wr Int)) (! %s :pattern (%s)))", body.S, v.S), "Bool"}})
+	}
 }
 
 func (st *State) setHeap(comp string, t Term) {
@@ -128,10 +171,30 @@ func addOff(base Term, off int) Term {
 }
 
 func fieldComp(t types.Type, name string) string {
-	return "F$" + typeKey(t) + "$" + name
+	c := "F$" + typeKey(t) + "$" + name
+	if _, ok := compTypes[c]; !ok {
+		if st, ok := t.Underlying().(*types.Struct); ok {
+			for i := 0; i < st.NumFields(); i++ {
+				if st.Field(i).Name() == name {
+					compTypes[c] = st.Field(i).Type()
+				}
+			}
+		}
+	}
+	return c
 }
 
-func elemComp(t types.Type) string { return "E$" + typeKey(t) }
+func elemComp(t types.Type) string {
+	c := "E$" + typeKey(t)
+	compTypes[c] = t
+	return c
+}
+
+func ptrComp(t types.Type) string {
+	c := "P$" + typeKey(t)
+	compTypes[c] = t
+	return c
+}
 func elemSort(P *Prog, t types.Type) string {
 	return fmt.Sprintf("(Array Int (Array Int %s))", P.sorts.sortOf(t))
 }
@@ -272,7 +335,7 @@ func (st *State) read(P *Prog, l *Loc) Term {
 			return applyPathRead(P, v, l.path)
 		default:
 			s := P.sorts.sortOf(l.rootT)
-			h := st.getHeap(P, "P$"+typeKey(l.rootT), fmt.Sprintf("(Array Int %s)", s))
+			h := st.getHeap(P, ptrComp(l.rootT), fmt.Sprintf("(Array Int %s)", s))
 			return applyPathRead(P, app(s, "select", h, l.base), l.path)
 		}
 	}
@@ -325,7 +388,7 @@ func (st *State) write(P *Prog, l *Loc, nv Term) {
 			st.setHeap(comp, app(hs, "store", h, l.base, applyPathWrite(P, cur, l.path, nv)))
 		default:
 			s := P.sorts.sortOf(l.rootT)
-			comp := "P$" + typeKey(l.rootT)
+			comp := ptrComp(l.rootT)
 			hs := fmt.Sprintf("(Array Int %s)", s)
 			h := st.getHeap(P, comp, hs)
 			cur := app(s, "select", h, l.base)
@@ -355,7 +418,7 @@ func (l *Loc) comps(P *Prog) []string {
 		case *types.Array:
 			return []string{elemComp(u.Elem())}
 		default:
-			return []string{"P$" + typeKey(l.rootT)}
+			return []string{ptrComp(l.rootT)}
 		}
 	}
 	return nil
